@@ -595,7 +595,7 @@ func gen(tier string, r *lib.Rand, emit func(string)) {
 
 	// (b) the bit-pattern families, for every configuration targets directed at its K and T
 	sizes := []int{24, 48, 64, 96, 128, 192, 256}
-	perCfg := 3
+	perCfg := 2
 	if thorough {
 		sizes = []int{24, 48, 64, 96, 128, 192, 256, 384, 512}
 		perCfg = 12
@@ -617,6 +617,43 @@ func gen(tier string, r *lib.Rand, emit func(string)) {
 			}
 		}
 	}
+	// the runs algorithm and the unbounded run-length decomposers branch on the multiset of run
+	// lengths only: more targets made of a few long all-ones runs (distinct lengths, mostly
+	// single-zero gaps), so that the length chain the sequence algorithm has to find is not trivial
+	nruns := 4
+	if thorough {
+		nruns = 60
+	}
+	for _, c := range all {
+		unbounded := c.kind == kRuns
+		if c.kind == kDict {
+			_, _, eb := entrybits(c.decomp)
+			unbounded = eb == nolimit
+		}
+		if !unbounded || (!thorough && !c.ens && c.kind != kRuns) {
+			continue
+		}
+		for i := 0; i < nruns; i++ {
+			m := r.Range(3, 6)
+			var runs, gaps []int
+			for j := 0; j < m; j++ {
+				runs = append(runs, r.Range(2, 40))
+				g := 1
+				if r.Chance(1, 4) {
+					g = r.Range(2, 5)
+				}
+				gaps = append(gaps, g)
+			}
+			if r.Bool() {
+				gaps[m-1] = 0
+			}
+			n := runsValue(runs, gaps)
+			if eligible(c, n) {
+				emit(execCase(c, n))
+			}
+		}
+	}
+
 	// a few very long targets
 	nlong := 16
 	if thorough {
@@ -637,7 +674,7 @@ func gen(tier string, r *lib.Rand, emit func(string)) {
 		}
 	}
 	// the same target through every member of the ensemble (what the search command does)
-	nsame := 3
+	nsame := 2
 	if thorough {
 		nsame = 8
 	}
